@@ -73,6 +73,7 @@ SPELLINGS = [
 ]
 ORIGINS = [0x018000, 0x828123]
 REGISTER_LIKE_NAMES = ["a", "A", "x", "Y", "s", "b", "l", "_zp", "_", "__t1"]
+MNEMONIC_LIKE_NAMES = ["inc", "bit", "sec", "dec", "and", "nop", "lda", "INC", "Rts"]
 UNJUDGED_PLAIN = set(isa.BRANCHES) | {"brl", "per"}
 
 
@@ -313,6 +314,39 @@ def run_enum(shard: dict, res: Res) -> None:
                     judge(res, supported, m, shape, "", None if isa_shape == "imp" else v, stmt, f"*=0x008000\n{pre}{stmt}{ending}",
                           key_of(m, shape, "", None if isa_shape == "imp" else v), True)
                     res.count("last_statement_cases")
+        # ... also when the symbol is spelled like a mnemonic (a macro parameter `inc`, `bit`, `sec`: such names cannot be set with := at the
+        # start of a line, but parameters and labels may carry them); the operand is followed by a line end, a blank, a comment or an index
+        for name in MNEMONIC_LIKE_NAMES:
+            for shape, tpl, isa_shape in SHAPES:
+                if isa_shape in (None, "imp"):
+                    continue
+                for v, tail_ in ((0x12, ""), (0x1234, " ; mask"), (0x12, "\t")):
+                    stmt = render(m, shape, "", name, "lower")
+                    judge(res, supported, m, shape, "", v, stmt, f"*=0x008000\n.macro zmq({name}) {{\n{stmt}{tail_}\n}}\nzmq({v:#x})\n", key_of(m, shape, "", v), True)
+                    res.count("mnemonic_like_name_cases")
+        # an explicit size suffix truncates the operand to that size also when the operand is a label of another bank (a mirror of the
+        # same ROM bank, code that runs from RAM): jsr.w / jmp.w / lda.w to such a label keep assembling
+        for shape in ("dir", "dir_x", "dir_y", "ind", "x_ind", "imm"):
+            isa_shape = SHAPE_BY_NAME[shape][2]
+            for suffix in ("w", "b"):
+                for place, lab_addr in (("*=0x80FF00\nzfar:\n.db 0\n", 0x80FF00), ("*=0x028000\n@=0x7E1F00\nzfar:\n.db 0\n", 0x7E1F00), ("*=0x01A000\nzfar:\n.db 0\n", 0x01A000)):
+                    exp = isa.encode(m, isa_shape, suffix, lab_addr)
+                    stmt = render(m, shape, suffix, "zfar", "lower")
+                    src = f"{place}*=0x008123\n{stmt}\n"
+                    r4 = assemble(src)
+                    res.evals += 1
+                    res.count("label_in_another_bank_cases")
+                    wit4 = {"m": m, "shape": shape, "suffix": suffix, "value": lab_addr, "stmt": stmt, "src": src, "other_bank": True}
+                    if r4.ok:
+                        res.distinct_count += 1
+                        got4 = bytes(r4.blocks[-1][1]) if r4.blocks else b""
+                        if exp is None:
+                            res.violate("undefined-accepted", f"`{stmt}` (zfar = {lab_addr:#x}) is not a 65c816 instruction but assembled to {got4.hex()}", wit4)
+                        elif got4 != exp:
+                            res.violate("wrong-opcode-byte" if got4[:1] != exp[:1] else "wrong-operand-bytes", f"`{stmt}` (zfar = {lab_addr:#x}) assembled to {got4.hex()}, the ISA says {exp.hex()}", wit4)
+                    elif exp is not None and key_of(m, shape, suffix, 0x1234 if suffix == "w" else 0x12) in supported:
+                        res.distinct_count += 1
+                        res.violate("supported-rejected", f"`{stmt}` with zfar = {lab_addr:#x} (a label of another bank, explicit size) is rejected: {r4.err_kind}: {r4.err_text[:160]}", wit4)
         # spellings of the same value must not change the inferred width
         for shape, tpl, _ in SHAPES:
             if shape == "imp":
@@ -406,6 +440,14 @@ def run_shard(shard: dict) -> Res:
 
 def replay(w: dict) -> Res:
     res = Res()
+    if w.get("other_bank"):
+        exp = isa.encode(w["m"], SHAPE_BY_NAME[w["shape"]][2], w["suffix"], w["value"])
+        r4 = assemble(w["src"])
+        res.case(w["src"], True)
+        got4 = bytes(r4.blocks[-1][1]) if r4.ok and r4.blocks else None
+        if (r4.ok and got4 != exp) or (not r4.ok and exp is not None):
+            res.violate("label-in-another-bank", f"`{w['stmt']}`: ok={r4.ok} {got4.hex() if got4 else r4.err_text[:120]}, the ISA says {(exp or b'').hex() or 'undefined'}", w)
+        return res
     if w.get("loop"):
         lo, hi, base = w["loop"]
         vals = [base + k for k in range(lo, hi)]
